@@ -299,13 +299,23 @@ func (b Builder) abiExtendedFields(t types.Type, name string) (fields []llvm.Val
 		hash := b.Pkg.rtFunc("typehash")
 		env := b.abiType(t.Key())
 		hasher := b.aggregateValue(prog.Type(hashFunc, InGo), hash.impl, env.impl)
+		// Keys and elems above the inline limit are stored in the bucket as
+		// pointers (see abi.MapBucketType and the indirect flags), so the
+		// slot sizes the runtime strides by are pointer sizes in that case.
+		keySize, elemSize := prog.abi.Size(t.Key()), prog.abi.Size(t.Elem())
+		if flags&1 != 0 { // indirect key
+			keySize = prog.abi.PtrSize
+		}
+		if flags&2 != 0 { // indirect elem
+			elemSize = prog.abi.PtrSize
+		}
 		fields = []llvm.Value{
 			b.abiType(abi.PublicType(t.Key())).impl,
 			b.abiType(abi.PublicType(t.Elem())).impl,
 			b.abiType(bucket).impl,
 			hasher.impl,
-			prog.IntVal(uint64(prog.abi.Size(t.Key())), prog.Byte()).impl,
-			prog.IntVal(uint64(prog.abi.Size(t.Elem())), prog.Byte()).impl,
+			prog.IntVal(uint64(keySize), prog.Byte()).impl,
+			prog.IntVal(uint64(elemSize), prog.Byte()).impl,
 			prog.IntVal(uint64(prog.abi.Size(bucket)), prog.Uint16()).impl,
 			prog.IntVal(uint64(flags), prog.Uint32()).impl,
 		}
